@@ -196,7 +196,7 @@ silent(["C08", "C03"], "code_data/_constants.py", "    if isinstance(value, Code
 M.append(dict(kind="fire", pid="C15", file=J, old="from ast import literal_eval\n", new="import re\nfrom ast import literal_eval\n",
               more=[('            return int(value["int"])', '            if not re.fullmatch(r"-?(?a)\\d+", value["int"]):\n                raise ValueError("int")\n            return int(value["int"])')], why="global flag in the middle (R15.4)"))
 M.append(dict(kind="silent", pid=["C15"], file=J, old="from ast import literal_eval\n", new="import re\nfrom ast import literal_eval\n",
-              more=[('            return int(value["int"])', '            if not re.fullmatch(r"(?a)-?\\d+", value["int"]):\n                raise ValueError("int")\n            return int(value["int"])')], why="flag at the start"))
+              more=[('            return int(value["int"])', '            re.fullmatch(r"(?a)-?\\d+", value["int"])\n            return int(value["int"])')], why="flag at the start (no new rejection path: R07.R would answer 'not decided')"))
 fire("C15", J, "                cast(float, constant_value_from_json(value[\"real\"])),", "                cast(tuple[float, float], (constant_value_from_json(value[\"real\"]), 0))[0],", "PEP 585 subscript evaluated at run time")
 fire("C16", "code_data/_cli.py", 'parser = argparse.ArgumentParser(description="Inspect Python code objects.")', 'parser = argparse.ArgumentParser(description="Inspect Python code objects.", fromfile_prefix_chars="@")', "@file expansion (R16.7)")
 silent(["C16"], "code_data/_cli.py", 'parser = argparse.ArgumentParser(description="Inspect Python code objects.")', 'parser = argparse.ArgumentParser(description="Inspect Python code objects.", epilog="See the docs.")', "presentation only")
